@@ -44,6 +44,16 @@ CLAIMED["C04"] = (
     "frames is sampled.",
     "DESIGN.md §5 C04")
 
+CLAIMED["C12"] = (
+    "model_checking",
+    "TLA+ event scheme / event information decoder and instance-map state machine (Events103) with field round "
+    "trip, totality and map law checked by TLC; the complete 2^23 event space decoded by the real library and "
+    "judged cell by cell by TLC; add_type/clear/decode/retry histories validated by a TLC fold",
+    "No-map decoding is exhaustive over all 2^23 event frames in both tiers; device/instance frames under maps: "
+    "structured subset (quick) / all 2^21 frames x 33 maps (thorough); map histories seeded random.",
+    "Trusted: TLC; harness description of a decoded event (class name, fields, event data).",
+    "DESIGN.md §5 C12")
+
 NOT_YET = {}
 
 
